@@ -106,13 +106,24 @@ const MAX_KNN_K: u32 = kyrodb_engine::api_validation::MAX_KNN_K;
 /// Interval for persisting per-tenant usage snapshots to disk.
 const USAGE_EXPORT_INTERVAL_SECS: u64 = 60;
 
-/// First WAL segment or snapshot file found in `dir`, if any.
+/// First snapshot file, or WAL segment that holds at least one frame, found in `dir`, if any.
+///
+/// A WAL segment that consists of its 4-byte header only (or is still empty) carries no
+/// acknowledged write: that is what a crash during the very first initialization leaves behind
+/// (the first segment is created before the MANIFEST is published), and the next start must be
+/// able to initialize the database.
 fn find_persistence_artifact(dir: &Path) -> Option<std::path::PathBuf> {
+    const WAL_HEADER_LEN: u64 = 4;
     let entries = std::fs::read_dir(dir).ok()?;
     entries.filter_map(|entry| entry.ok()).find_map(|entry| {
         let name = entry.file_name();
         let name = name.to_string_lossy();
-        let is_wal = name.starts_with("wal_") && name.ends_with(".wal");
+        let is_wal = name.starts_with("wal_")
+            && name.ends_with(".wal")
+            && entry
+                .metadata()
+                .map(|m| m.len() > WAL_HEADER_LEN)
+                .unwrap_or(true);
         let is_snapshot = name.starts_with("snapshot_") && name.ends_with(".snap");
         (is_wal || is_snapshot).then(|| entry.path())
     })
